@@ -99,6 +99,9 @@ func cmdUnit(args []string) {
 	all := fs.Bool("v", false, "list discharged obligations too")
 	fs.Parse(args)
 	e := setup()
+	if os.Getenv("GOVC_ACC") != "" {
+		e.debugAccessors(os.Getenv("GOVC_ACC"))
+	}
 	for _, name := range fs.Args() {
 		fn := e.funcs[name]
 		if fn == nil {
@@ -417,7 +420,8 @@ func cmdCheck(args []string) {
 		exit = 2
 	}
 	wall := time.Since(t0).Seconds()
-	writeEvidence(*prop, *tier, seed, ps, units, reports, total, discharged+knownHits*0, violations, knownHits, len(undecided), vacuous, solverMs, agreement, wall, e)
+	// known findings are recorded defects, not proof obligations that are claimed: they are counted separately
+	writeEvidence(*prop, *tier, seed, ps, units, reports, total-knownHits, discharged, violations, knownHits, len(undecided), vacuous, solverMs, agreement, wall, e)
 	if *writeBaseline {
 		bl := map[string][]string{}
 		data, err := os.ReadFile("/verif/baseline/obligations.json")
